@@ -1294,7 +1294,7 @@ static void exec_protocol(Plan const& p, Report& rep)
     // iteration, the relative error of the variance weighted combination (a) as the library's public
     // accumulate forms it in the numeric type - bit for bit what the built-in callback compares with the
     // target - and (b) by an independent long double implementation
-    std::vector<ld> rho, rho_lib;
+    std::vector<ld> rho, rho_lib, vcond;
     ld unc = 0;
     {
         Plan q = p;
@@ -1309,6 +1309,7 @@ static void exec_protocol(Plan const& p, Report& rep)
         if (out.threw || out.killed) return;
         rho = reference_rel_errors(s.w->view());
         unc = rel_error_uncertainty(s.w->view(), p.nt);
+        vcond = reference_value_conditions(s.w->view());
         rho_lib = s.w->combined_rel_errors();
     }
 
@@ -1318,8 +1319,10 @@ static void exec_protocol(Plan const& p, Report& rep)
     for (std::size_t k = 0; k != rho.size(); ++k)
     {
         bool const fa = std::isfinite(rho_lib[k]), fb = std::isfinite(rho[k]);
-        if (fa && fb && rho[k] > 0 && unc < 0.25L &&
-            !(std::fabs(rho_lib[k] - rho[k]) <= (unc + 64 * eps_of(p.nt)) * rho[k]))
+        // (the estimates of the iterations may cancel in the combination: its own condition number)
+        ld const vc = (k < vcond.size()) ? vcond[k] : 1e30L;
+        if (fa && fb && rho[k] > 0 && unc < 0.25L && vc * eps_of(p.nt) < 1e-3L &&
+            !(std::fabs(rho_lib[k] - rho[k]) <= (unc + 64 * eps_of(p.nt) * (1 + vc)) * rho[k]))
         {
             rep.fail("C12", "combination", key, fmt(
                 "after iteration %zu the variance weighted combination has relative error %.21Lg, independent reference %.21Lg",
